@@ -2380,3 +2380,360 @@ def recanon_value(it, v):
     if isinstance(v, Arr):
         return Arr(tuple(recanon_value(it, x) for x in v.elems))
     return v
+
+
+# ---------------------------------------------------------------- more std combinators (same semantics as their match forms)
+def _with_closure(ctx, g, clos, args):
+    """value of calling `clos(args)` under the extra condition g (state changes are kept)"""
+    st0 = ctx.state
+    sub = CallCtx(ctx.interp, ctx.frame, st0.with_fact(g) if g not in (TRUE, FALSE) else st0, ctx.term, [], None, None)
+    r = ctx.interp.call_closure(sub, clos, list(args))
+    ctx.state = State(sub.state.store, st0.guard, st0.facts)
+    return r
+
+
+@model('<std::option::Option<T>>::unwrap_or_else')
+def _(ctx):
+    g, p = _opt_parts(ctx, ctx.args[0])
+    if g == TRUE and p is not None:
+        return p
+    d = _with_closure(ctx, mk_not(g), ctx.args[1], [])
+    return d if p is None else ctx.interp.select(g, p, d)
+
+
+@model('<std::option::Option<T>>::map_or_else')
+def _(ctx):
+    g, p = _opt_parts(ctx, ctx.args[0])
+    d = _with_closure(ctx, mk_not(g), ctx.args[1], []) if g != TRUE else None
+    if p is None or g == FALSE:
+        return d
+    r = _with_closure(ctx, g, ctx.args[2], [p])
+    return r if d is None else ctx.interp.select(g, r, d)
+
+
+@model('<std::option::Option<T>>::or')
+def _(ctx):
+    g, p = _opt_parts(ctx, ctx.args[0])
+    g2, p2 = _opt_parts(ctx, ctx.args[1])
+    if p is None:
+        return ctx.args[1]
+    if p2 is None:
+        return ctx.args[0]
+    return opt(mk_or(g, g2), ctx.interp.select(g, p, p2))
+
+
+@model('<std::option::Option<T>>::or_else')
+def _(ctx):
+    g, p = _opt_parts(ctx, ctx.args[0])
+    if g == TRUE:
+        return ctx.args[0]
+    alt = _with_closure(ctx, mk_not(g), ctx.args[1], [])
+    g2, p2 = _opt_parts(ctx, alt)
+    if p is None:
+        return alt
+    if p2 is None:
+        return ctx.args[0]
+    return opt(mk_or(g, g2), ctx.interp.select(g, p, p2))
+
+
+@model('<std::option::Option<T>>::ok_or_else')
+def _(ctx):
+    g, p = _opt_parts(ctx, ctx.args[0])
+    err = _with_closure(ctx, mk_not(g), ctx.args[1], []) if g != TRUE else Opaque(('never',))
+    if p is None:
+        return Enum(RESULT, ((TRUE, 1, (err,)),))
+    return Enum(RESULT, ((g, 0, (p,)), (mk_not(g), 1, (err,))))
+
+
+@model('<std::option::Option<T>>::filter')
+def _(ctx):
+    it = ctx.interp
+    g, p = _opt_parts(ctx, ctx.args[0])
+    if p is None or g == FALSE:
+        return none()
+    cell = Ref(it.alloc(ctx.state, p, 'optf'), ())
+    r = _with_closure(ctx, g, ctx.args[1], [cell])
+    if not isinstance(r, tuple):
+        raise Unsupported('Option::filter predicate is not a boolean term')
+    return opt(mk_and(g, r), p)
+
+
+@model('<std::option::Option<T>>::is_some_and')
+def _(ctx):
+    g, p = _opt_parts(ctx, ctx.args[0])
+    if p is None or g == FALSE:
+        return FALSE
+    r = _with_closure(ctx, g, ctx.args[1], [p])
+    if not isinstance(r, tuple):
+        raise Unsupported('Option::is_some_and predicate is not a boolean term')
+    return mk_and(g, r)
+
+
+@model('<std::option::Option<T>>::zip')
+def _(ctx):
+    g, p = _opt_parts(ctx, ctx.args[0])
+    g2, p2 = _opt_parts(ctx, ctx.args[1])
+    if p is None or p2 is None:
+        return none()
+    return opt(mk_and(g, g2), Tup((p, p2)))
+
+
+@model('<std::option::Option<T>>::as_ref', '<std::option::Option<T>>::as_mut')
+def _(ctx):
+    """Option<T> behind a reference -> Option<&T>: references to the payload's place"""
+    it = ctx.interp
+    r = ctx.args[0]
+    if not isinstance(r, Ref):
+        return NotImplemented
+    o = it.read(ctx.state, r.root, r.path)
+    g, p = _opt_parts(ctx, o)
+    if p is None:
+        return none()
+    return opt(g, Ref(r.root, r.path + (('d', 1), ('f', 0)), r.mut))
+
+
+@model('<std::result::Result<T, E>>::is_ok', '<std::result::Result<T, E>>::is_err')
+def _(ctx):
+    r = ctx.args[0]
+    if isinstance(r, Ref):
+        r = ctx.interp.read(ctx.state, r.root, r.path)
+    if not (isinstance(r, Enum) and r.path == RESULT):
+        return NotImplemented
+    okg = FALSE
+    for g, var, f in r.alts:
+        if var == 0:
+            okg = mk_or(okg, g)
+    return okg if ctx.fn['def']['path'].endswith('is_ok') else mk_not(okg)
+
+
+@model('<std::result::Result<T, E>>::unwrap_or')
+def _(ctx):
+    r = ctx.args[0]
+    if not (isinstance(r, Enum) and r.path == RESULT):
+        return NotImplemented
+    okg, p = FALSE, None
+    for g, var, f in r.alts:
+        if var == 0:
+            okg = mk_or(okg, g)
+            p = f[0] if p is None else ctx.interp.select(g, f[0], p)
+    if p is None:
+        return ctx.args[1]
+    return ctx.interp.select(okg, p, ctx.args[1])
+
+
+@model('<std::result::Result<T, E>>::and_then')
+def _(ctx):
+    r = ctx.args[0]
+    if not (isinstance(r, Enum) and r.path == RESULT):
+        return NotImplemented
+    okg, p, errs = FALSE, None, []
+    for g, var, f in r.alts:
+        if var == 0:
+            okg = mk_or(okg, g)
+            p = f[0] if p is None else ctx.interp.select(g, f[0], p)
+        else:
+            errs.append((g, 1, f))
+    if p is None or okg == FALSE:
+        return r
+    r2 = _with_closure(ctx, okg, ctx.args[1], [p])
+    if not (isinstance(r2, Enum) and r2.path == RESULT):
+        raise Unsupported('and_then closure does not return a Result')
+    alts = [(mk_and(okg, g), var, f) for g, var, f in r2.alts] + errs
+    return Enum(RESULT, tuple(alts))
+
+
+def _sum_like(op, unit_bits):
+    def f(ctx):
+        """sum()/product() of floats: the left fold with + / × from the unit"""
+        it = ctx.interp
+        s = _stream_arg(ctx, ctx.args[0])
+        st0 = ctx.state
+        n = stream_len(it, st0, s)
+        cn = _concrete_len(n)
+        init = ('fc', unit_bits)
+        if cn is not None and cn <= 32:
+            acc = init
+            for i in range(cn):
+                e = stream_elem(ctx, s, iconst(i))
+                if isinstance(e, Ref):
+                    e = it.read(ctx.state, e.root, e.path)
+                if not isinstance(e, tuple):
+                    raise Unsupported('sum of non-scalar elements')
+                acc = (op, acc, e)
+            return acc
+        acc = it.fresh_sym('acc')
+        ivar = it.fresh_sym('ι')
+        sub = CallCtx(it, ctx.frame, st0.with_fact(mk_icmp('lt', ivar, n)), ctx.term, [], None, None)
+        e = stream_elem(sub, s, ivar)
+        if isinstance(e, Ref):
+            e = it.read(sub.state, e.root, e.path)
+        if not isinstance(e, tuple):
+            raise Unsupported('sum of non-scalar elements')
+        body = (op, acc, e)
+        ev = {'kind': 'fold', 'fn': ctx.frame.f['path'] if ctx.frame else None, 'line': ctx.line, 'stream': s,
+              'init': init, 'acc': acc, 'ivar': ivar, 'body': body, 'elem': e, 'len': n}
+        t = ('fold', it.abstract(st0, s), init, acc, ivar, body)
+        ev['term'] = t
+        it.events.append(ev)
+        return t
+    return f
+
+
+MODELS['std::iter::Iterator::sum'] = _sum_like('f+', 0x8000000000000000)      # f64's Sum starts from -0.0
+MODELS['std::iter::Iterator::product'] = _sum_like('f*', 0x3ff0000000000000)
+
+
+@model('std::iter::Iterator::take')
+def _(ctx):
+    it = ctx.interp
+    s = _stream_arg(ctx, ctx.args[0])
+    k = ctx.args[1]
+    if not isinstance(k, tuple):
+        return NotImplemented
+    return Stream('prefix', (s, imin(k, stream_len(it, ctx.state, s))))
+
+
+@model('std::iter::Iterator::by_ref')
+def _(ctx):
+    return ctx.args[0]
+
+
+@model('std::iter::Iterator::reduce')
+def _(ctx):
+    it = ctx.interp
+    s = _stream_arg(ctx, ctx.args[0])
+    st0 = ctx.state
+    ne = stream_nonempty(it, st0, s)
+    if ne == FALSE:
+        return none()
+    first = stream_elem(ctx, s, iconst(0))
+    rest = stream_tail(it, st0, s)
+    sub = CallCtx(it, ctx.frame, st0.with_fact(ne) if ne != TRUE else st0, ctx.term, [rest, first, ctx.args[1]], ctx.fn, None)
+    r = MODELS['std::iter::Iterator::fold'](sub)
+    ctx.state = State(sub.state.store, st0.guard, st0.facts)
+    return opt(ne, r)
+
+
+@model('<[T]>::to_vec', 'std::borrow::ToOwned::to_owned', '<[T]>::into_vec')
+def _(ctx):
+    """an owned copy of a whole slice: the same sequence of values"""
+    it = ctx.interp
+    v = ctx.args[0]
+    if isinstance(v, VecV):
+        return v
+    s = deref_seq(ctx, v)
+    if isinstance(s, EmptySlice):
+        return VecV(SeqLit(()))
+    base = it.read(ctx.state, s.root, s.path)
+    if isinstance(base, VecV):
+        base = base.seq
+    if isinstance(base, Arr):
+        if s.start[0] == 'ic' and s.end[0] == 'ic':
+            return VecV(SeqLit(tuple(base.elems[s.start[1]:s.end[1]])))
+        raise Unsupported('copy of a symbolic part of an array')
+    if s.start == iconst(0) and s.end == it.seq_len(base):
+        return VecV(base)
+    raise Unsupported('copy of a proper sub-slice')
+
+
+@model('<std::vec::Vec<T, A>>::pop')
+def _(ctx):
+    it = ctx.interp
+    r = ctx.args[0]
+    v = _vec_of(ctx, r)
+    if isinstance(v.seq, SeqPush):
+        it.write(ctx.state, r.root, r.path, VecV(v.seq.seq))
+        return some(v.seq.val)
+    if isinstance(v.seq, SeqLit):
+        if not v.seq.elems:
+            return none()
+        it.write(ctx.state, r.root, r.path, VecV(SeqLit(tuple(v.seq.elems[:-1]))))
+        return some(v.seq.elems[-1])
+    raise Unsupported('Vec::pop on a symbolic vector')
+
+
+@model('<std::vec::Vec<T, A>>::clear')
+def _(ctx):
+    r = ctx.args[0]
+    _vec_of(ctx, r)
+    ctx.interp.write(ctx.state, r.root, r.path, VecV(SeqLit(())))
+    return Tup(())
+
+
+@model('<std::vec::Vec<T, A>>::reserve', '<std::vec::Vec<T, A>>::reserve_exact', '<std::vec::Vec<T, A>>::shrink_to_fit')
+def _(ctx):
+    return Tup(())
+
+
+@model('<std::vec::Vec<T, A>>::extend_from_slice')
+def _(ctx):
+    it = ctx.interp
+    r = ctx.args[0]
+    v = _vec_of(ctx, r)
+    s = to_stream(ctx, ctx.args[1])
+    tail = collect_seq(ctx, Stream('cloned', (s,)))
+    new = tail if (isinstance(v.seq, SeqLit) and not v.seq.elems) else SeqConcat((v.seq, tail))
+    it.write(ctx.state, r.root, r.path, VecV(new))
+    return Tup(())
+
+
+@model('<[T]>::swap')
+def _(ctx):
+    it = ctx.interp
+    s = deref_seq(ctx, ctx.args[0])
+    i, j = ctx.args[1], ctx.args[2]
+    site(ctx, 'index', mk_and(mk_icmp('lt', i, slice_len(it, s)), mk_icmp('lt', j, slice_len(it, s))), {'what': 'slice::swap'})
+    ri = elem_ref(it, s, it.iadd(s.start, i), mut=True)
+    rj = elem_ref(it, s, it.iadd(s.start, j), mut=True)
+    a = it.read(ctx.state, ri.root, ri.path)
+    b = it.read(ctx.state, rj.root, rj.path)
+    it.write(ctx.state, ri.root, ri.path, b)
+    it.write(ctx.state, rj.root, rj.path, a)
+    return Tup(())
+
+
+@model('std::mem::take')
+def _(ctx):
+    it = ctx.interp
+    dst = ctx.args[0]
+    if not isinstance(dst, Ref):
+        return NotImplemented
+    old = it.read(ctx.state, dst.root, dst.path)
+    if isinstance(old, VecV):
+        new = VecV(SeqLit(()))
+    elif isinstance(old, Enum) and old.path == OPTION:
+        new = none()
+    elif isinstance(old, tuple) and old and old[0] in ('fc', 'f+', 'f-', 'f*', 'f/', 'fma', 'fcall', 'fneg'):
+        new = ('fc', 0)
+    else:
+        raise Unsupported('mem::take of %s' % type(old).__name__)
+    it.write(ctx.state, dst.root, dst.path, new)
+    return old
+
+
+@model('std::convert::Into::into')
+def _(ctx):
+    sub = CallCtx(ctx.interp, ctx.frame, ctx.state, ctx.term, ctx.args, dict(ctx.fn, args=list(reversed(ctx.fn.get('args') or []))), None)
+    r = MODELS['std::convert::From::from'](sub)
+    ctx.state = sub.state
+    return r
+
+
+@model('<usize>::saturating_add')
+def _(ctx):
+    a, b = ctx.args
+    return ctx.interp.iadd(a, b)      # lengths and indices: far from usize::MAX (axiom len ≤ isize::MAX)
+
+
+@model('<usize>::max')
+def _(ctx):
+    a, b = ctx.args
+    if a[0] == 'ic' and b[0] == 'ic':
+        return a if a[1] >= b[1] else b
+    return ('imax', a, b)
+
+
+@model('<usize>::abs_diff')
+def _(ctx):
+    a, b = ctx.args
+    return mk_sel(mk_icmp('ge', a, b), ctx.interp.isub(a, b), ctx.interp.isub(b, a))
